@@ -153,6 +153,21 @@ func genRaw(r *rand.Rand) string {
 	return strings.Join(p, ",")
 }
 
+func hasDupDenom(text string) bool {
+	seen := map[string]bool{}
+	if text == "-" {
+		return false
+	}
+	for _, it := range strings.Split(text, ",") {
+		d := strings.Split(it, ":")[0]
+		if seen[d] {
+			return true
+		}
+		seen[d] = true
+	}
+	return false
+}
+
 func genCoinsOp(r *rand.Rand) string {
 	switch r.Intn(10) {
 	case 0:
@@ -180,6 +195,12 @@ func genCoinsOp(r *rand.Rand) string {
 	at, bt := a.text(), b.text()
 	if r.Intn(12) == 0 { // operands outside the contract: sorted, but with zero or negative amounts or a bad later denomination
 		bt = genRaw(r)
+		if k == "coins.isequal" && hasDupDenom(bt) {
+			// IsEqual sorts its operands with an unstable sort: with a denomination listed twice the outcome (false, or the
+			// panic on a denomination mismatch further on) depends on where the sort leaves the duplicates - not a property
+			// of the code the model could share
+			bt = genValid(r).text()
+		}
 	}
 	if r.Intn(2) == 0 {
 		at, bt = bt, at
